@@ -9,6 +9,7 @@ Three stages per run, all against the Go code of the working tree:
   3. the differential run proper: model vs Go on the same case file.
 """
 import base64
+import hashlib
 import os
 
 from .. import core
@@ -51,6 +52,21 @@ def status_proto(code, msg, details):
     for t, v in details:
         out += ld(3, (ld(1, t) if t else b"") + (ld(2, v) if v else b""))
     return out
+
+
+def canon(v):
+    """the canonical print of the Go side (ints decimal, bytes always #hex)"""
+    if isinstance(v, bool):
+        return "1" if v else "0"
+    if isinstance(v, int):
+        return str(v)
+    if isinstance(v, (bytes, bytearray)):
+        return "#" + bytes(v).hex()
+    return "(" + " ".join(canon(x) for x in v) + ")"
+
+
+def with_digest(args):
+    return list(args) + [hashlib.sha1(canon(list(args)).encode()).hexdigest().encode()]
 
 
 def b64raw(b):
@@ -301,8 +317,8 @@ class C13(Prop):
                 continue
             mo, st, block, tbl = r
             cases.append(["c13.enc"] + e + [mo])
-            cases.append(["c13.webrt"] + e + [mo, tbl, block])
-            cases.append(["c13.grpcrt", e[0], e[1], e[2], mo, tbl, st])
+            cases.append(["c13.webrt"] + with_digest(e + [mo, tbl, block]))
+            cases.append(["c13.grpcrt"] + with_digest([e[0], e[1], e[2], mo, tbl, st]))
             if i < n_wf:
                 blocks.append(block)
 
